@@ -481,4 +481,83 @@ def rule_cachekey(ctx: Ctx, rule: str = "C07.cachekey"):
     rep.floor(rule, "return paths of _make_key", n, 2)
 
 
-RULES = [rule_reserved, rule_layer, rule_adapter, rule_consume, rule_raise, rule_cachekey]
+def _resolution_pipeline(ctx):
+    """The functions that turn a provider's attribute into the callable the engine runs (dispatcher + signature adapter)."""
+    return [f for f in ctx.p.all_functions() if f.module.rel in ("statemachine/dispatcher.py", "statemachine/signature.py") and f.parent is None]
+
+
+def rule_built_per_callable(ctx: Ctx):
+    """C07.adapter: the adapter that binds a callback's arguments is built for *that* callable: nothing in front of the
+    builders answers with an adapter made for another callable (a memo keyed by name/code object/==)."""
+    from ..wrappers import check_fresh
+
+    check_fresh(ctx, "C07.adapter", _resolution_pipeline(ctx), "the binding depends only on the callback's own signature")
+
+
+def _kwargs_chain(ctx: Ctx):
+    """The functions the event's keyword arguments are spread into (`f(*args, **kwargs)`) on their way from the engine to the
+    callback: the registry / executor / wrapper entry points, and everything they in turn spread their own `**kwargs` into."""
+    seeds = []
+    for cname, names in (("CallbacksRegistry", ("call", "all", "async_call", "async_all")),
+                         ("CallbacksExecutor", ("call", "all", "async_call", "async_all")),
+                         ("CallbackWrapper", ("__call__", "call")), ("SignatureAdapter", ("bind_expected",))):
+        c = ctx.p.classes.get(cname)
+        if c is None:
+            raise AnalysisError(f"anchor lost: class {cname}")
+        for nm in names:
+            m = ctx.p.lookup_method(c, nm)
+            if m is not None:
+                seeds.append(m)
+    chain, todo = [], list(seeds)
+    while todo:
+        f = todo.pop()
+        if f in chain or isinstance(f.node, ast.Lambda):
+            continue
+        chain.append(f)
+        kw = f.node.args.kwarg.arg if f.node.args.kwarg else None
+        if kw is None:
+            continue
+        for n in ast.walk(f.node):
+            if isinstance(n, ast.Call) and any(k.arg is None and isinstance(k.value, ast.Name) and k.value.id == kw for k in n.keywords):
+                try:
+                    r = ctx.r.resolve_in(n, f)
+                except Exception:
+                    continue
+                if r.how == "typed":
+                    todo.extend(t for t in r.targets if t.module.rel.startswith("statemachine/"))
+    return chain
+
+
+def rule_passthrough(ctx: Ctx, rule: str = "C07.layer"):
+    """Between the engine and the callback the event's keyword arguments travel as `**kwargs`: a function on that way that
+    declares a named parameter of its own takes the user's keyword argument of that name for itself (or raises
+    `TypeError: multiple values`) - only the reserved built-in names may be named there."""
+    rep = ctx.rep
+    chain = _kwargs_chain(ctx)
+    n = 0
+    for f in sorted(chain, key=lambda x: x.key):
+        a = f.node.args
+        if a.kwarg is None:
+            continue
+        n += 1
+        is_method = f.cls is not None and f.parent is None and "staticmethod" not in f.decorators
+        # (positional-only parameters cannot take a keyword argument)
+        named = ([x.arg for x in a.args][1:] if is_method and not a.posonlyargs else [x.arg for x in a.args]) + [x.arg for x in a.kwonlyargs]
+        own = [x for x in named if x not in DOCUMENTED_BUILTINS]
+        rep.check(not own, rule, f.loc(), f"{f.qualname} forwards the event's keyword arguments and names none of its own "
+                  "(a user keyword argument of the same name would be swallowed or collide)", f.key,
+                  f"def {f.name}({', '.join(named + ['*' + a.vararg.arg] * bool(a.vararg) + ['**' + a.kwarg.arg])})", own_parameters=own)
+    rep.floor(rule, "functions the event's **kwargs are spread into", n, 9)
+    # the entry points take the user's keyword arguments next to their own receiver (and, for send, the event name)
+    for key in ("Event.__call__", "StateMachine.send"):
+        f = ctx.fn(key)
+        a = f.node.args
+        if a.kwarg is None:
+            continue
+        named = [x.arg for x in a.args] + [x.arg for x in a.kwonlyargs]
+        own = [x for x in named if x not in DOCUMENTED_BUILTINS]
+        rep.check(not own, rule, f.loc(), f"{f.qualname} takes the user's keyword arguments and no keyword-capable parameter of its own",
+                  f.key, f"keyword-capable parameters next to **{a.kwarg.arg}: {', '.join(own)}", own_parameters=own)
+
+
+RULES = [rule_reserved, rule_layer, rule_adapter, rule_consume, rule_raise, rule_cachekey, rule_built_per_callable, rule_passthrough]
